@@ -36,7 +36,9 @@ pub struct ChunkShape {
 pub struct WaterShape {
     /// MH2O entry index 0..=255
     pub index: u8,
-    /// 1..=3 liquid layers
+    /// 0..=3 liquid layers. 0 = an entry without liquid: with `attributes` it carries only the
+    /// attribute block (kept only while some other entry of the table has liquid), without it
+    /// carries nothing at all
     pub layers: u8,
     /// per layer vertex format: 0..=3 = LVF with vertex data, 4 = no vertex data
     pub lvf: u8,
@@ -109,8 +111,22 @@ pub struct Case {
     pub mtxp: u8,
     /// 0 none, else number of blend-mesh headers
     pub blend: u8,
+    /// the builder is handed a water table (`add_water_data`) even when no entry of it holds
+    /// liquid: "water on an arbitrary set of chunks" where the set is empty (WotLK+)
+    #[serde(default)]
+    pub water_table: bool,
+    /// the documented modify workflow (parse → change the tile → rebuild), applied to the first
+    /// parse of the built file and rebuilt through both entry points (WotLK+). The edit is named
+    /// by the state it leaves: 0 none; 1 water table present but without any liquid (every entry
+    /// reset through `water_data_mut()`, or an empty table put into a tile that had none);
+    /// 2 water thinned (some entries reset, some lose their last layer, some kept);
+    /// 3 water table removed
+    #[serde(default)]
+    pub edit: u8,
     pub switches: Switches,
 }
+
+pub const EDITS: [&str; 4] = ["none", "water-emptied", "water-thinned", "water-removed"];
 
 impl Case {
     /// Apply "where the version allows" and the exclusion switches. Returns the effective case
@@ -136,9 +152,13 @@ impl Case {
         // "Flag count should match texture count" (add_texture_flags docs): only matching MTXF
         c.mtxf = c.mtxf.min(1);
         if v < 3 {
+            // (the builder documents that it rejects MH2O for older targets)
             c.water.clear();
             c.mtxf = 0;
+            c.water_table = false;
+            c.edit = 0;
         }
+        c.edit = c.edit.min(3);
         if v < 4 {
             c.mamp = false;
         }
@@ -204,12 +224,30 @@ impl Case {
             }
         }
         for w in c.water.iter_mut() {
-            w.layers = w.layers.clamp(1, 3);
+            w.layers = w.layers.min(3);
             w.lvf = w.lvf.min(4);
         }
         // one water shape per MH2O entry
         c.water.sort_by_key(|w| w.index);
         c.water.dedup_by_key(|w| w.index);
+        if c.water.iter().any(|w| w.layers > 0) {
+            // entries that carry nothing are the table's default; attribute-only entries stay
+            c.water.retain(|w| w.layers > 0 || w.attributes);
+            c.water_table = false; // (implied)
+        } else {
+            // no liquid anywhere: the caller still hands over a table. Attribute blocks describe
+            // liquid (fishable / deep), a table of attribute blocks alone is not generated.
+            if !c.water.is_empty() {
+                c.water_table = true;
+            }
+            c.water.clear();
+            // nothing to thin; nothing to remove either (such a table parses as "no water")
+            c.edit = match c.edit {
+                2 => 1,
+                3 => 0,
+                e => e,
+            };
+        }
         (c, removed)
     }
 
@@ -261,6 +299,11 @@ impl Case {
         }
         if !self.water.is_empty() {
             top.push('W');
+            if self.water.iter().any(|w| w.layers == 0) {
+                top.push('o'); // attribute-only entries next to liquid ones
+            }
+        } else if self.water_table {
+            top.push('w'); // a water table without liquid
         }
         if self.mtxf > 0 {
             top.push('X');
@@ -276,7 +319,7 @@ impl Case {
         }
         let liquid = self.chunks.iter().any(|s| s.mclq > 0);
         let extras = union >> 8 & 0x7d != 0; // MCRF / split extras / MCBB present
-        let sig = format!(
+        let mut sig = format!(
             "{}:n{}:sets{}:alpha{:x}:lq{}:x{}:top[{}]",
             self.version_name(),
             size,
@@ -286,9 +329,12 @@ impl Case {
             extras as u8,
             top
         );
+        if self.edit != 0 {
+            sig.push_str(&format!(":edit[{}]", EDITS[self.edit.min(3) as usize]));
+        }
         let version_specific = self.version >= 3
             && (self.mtxf > 0 || self.mamp || self.mtxp > 0 || self.blend > 0 || self.chunks.iter().any(|s| s.mclv));
-        let nt = (n >= 2 && sets.len() >= 2) || !self.water.is_empty() || version_specific;
+        let nt = (n >= 2 && sets.len() >= 2) || !self.water.is_empty() || version_specific || self.water_table || self.edit != 0;
         (sig, nt)
     }
 }
@@ -324,7 +370,7 @@ pub fn chunk_shape() -> impl Strategy<Value = ChunkShape> {
 }
 
 pub fn water_shape() -> impl Strategy<Value = WaterShape> {
-    (any::<u8>(), 1u8..=3, 0u8..=4, any::<bool>(), any::<bool>(), any::<bool>()).prop_map(
+    (any::<u8>(), prop_oneof![1 => Just(0u8), 6 => 1u8..=3], 0u8..=4, any::<bool>(), any::<bool>(), any::<bool>()).prop_map(
         |(index, layers, lvf, bitmap, attributes, full)| WaterShape { index, layers, lvf, bitmap, attributes, full },
     )
 }
@@ -361,10 +407,12 @@ pub fn case_strategy(switches: Switches, big: bool) -> impl Strategy<Value = Cas
             any::<bool>(),
             prop_oneof![2 => Just(0u8), 2 => 1u8..=8],
             prop_oneof![3 => Just(0u8), 1 => 1u8..=3],
+            prop_oneof![3 => Just(false), 1 => Just(true)],
+            prop_oneof![6 => Just(0u8), 2 => 1u8..=3],
         ),
     )
         .prop_map(
-            move |((version, seed, name_style, n_tex, n_models, n_wmos, n_doodads, n_wmo_pl), (float_class, chunks, mfbo, water, mtxf, mamp, mtxp, blend))| Case {
+            move |((version, seed, name_style, n_tex, n_models, n_wmos, n_doodads, n_wmo_pl), (float_class, chunks, mfbo, water, mtxf, mamp, mtxp, blend, water_table, edit))| Case {
                 version,
                 seed,
                 name_style,
@@ -381,6 +429,8 @@ pub fn case_strategy(switches: Switches, big: bool) -> impl Strategy<Value = Cas
                 mamp,
                 mtxp,
                 blend,
+                water_table,
+                edit,
                 switches: switches.clone(),
             },
         )
